@@ -61,7 +61,7 @@ Lemma copy_is_clone_plain m src dst_ j d : dn_owned E = false ->
   | _, _ => False
   end.
 Proof.
-  intros Hpl. unfold copy_body, clone_body, store_mode, clone_, emit, dbind, dret, rd, st, is_buf. rewrite Hpl.
+  intros Hpl. unfold copy_body, clone_body, store_mode, clone_, emit, dbind, dret, rd, st, is_buf, in_window. rewrite Hpl.
   destruct (sl_at src j) as [a|a|a], (sl_at dst_ j) as [b|b|b]; cbn [d_l d_slots d_pubs d_evs d_nid d_out];
   repeat match goal with |- context[if ?c then _ else _] => destruct c eqn:? end; cbn [d_l d_slots d_pubs d_evs d_nid d_out];
   cbn [d_l d_slots d_pubs d_evs d_nid d_out] in *;
@@ -80,15 +80,17 @@ Qed.
 Lemma clone_loop_src_mirror m so o n N1 N2 d :
   let len := length (d_slots d) in
   o < len -> n <= len -> so + n <= length srcl ->
+  (let '(h, t) := chunk len o n in win_range d o h /\ win_range d 0 t) ->
   for_n n 0 (clone_body E m (mkSl RSrc so N1) (mkSl (RBufV len) o N2)) d =
   Some (tt, let '(h, t) := chunk len o n in run_effect E m 0 (so + h) t (run_effect E m o so h d)).
 Proof.
-  intros len Ho Hn Hs. pose proof (chunk_cases len o n Ho Hn) as Hc. destruct (chunk len o n) as [h t].
+  intros len Ho Hn Hs HW. pose proof (chunk_cases len o n Ho Hn) as Hc. destruct (chunk len o n) as [h t].
+  destruct HW as [HWh HWt].
   destruct Hc as (Hsum & Hoh & Hto & Hhead & Htail).
   rewrite <- Hsum. rewrite for_n_split. unfold dbind at 1.
   rewrite (for_n_ext_range h 0 _ (clone_body E m (mkSl RSrc so N1) (mkSl RBuf o N2))).
   2:{ intros j' d' Hj. unfold clone_body, sl_at. cbn [s_reg s_off]. rewrite mirror_head by (try apply Hhead; lia). reflexivity. }
-  rewrite clone_loop_src_buf by (fold len; lia). rewrite !Nat.add_0_r.
+  rewrite clone_loop_src_buf by (first [fold len; lia | rewrite Nat.add_0_r; exact HWh]). rewrite !Nat.add_0_r.
   fold (run_effect E m o so h d). cbn [Nat.add].
   rewrite for_n_shift.
   rewrite (for_n_ext_range t 0 _ (clone_body E m (mkSl RSrc (so + h) N1) (mkSl RBuf 0 N2))).
@@ -96,7 +98,8 @@ Proof.
       destruct (Htail i ltac:(lia)) as (T1 & T2 & T3).
       replace (o + (h + i)) with (o + h + i) by lia. rewrite mirror_tail by lia. rewrite T3.
       replace (so + (h + i)) with (so + h + i) by lia. reflexivity. }
-  rewrite clone_loop_src_buf by (unfold run_effect; cbn [d_slots]; rewrite ?write_length; fold len; lia).
+  rewrite clone_loop_src_buf by (first [ unfold run_effect; cbn [d_slots]; rewrite ?write_length; fold len; lia
+                                       | cbn [Nat.add]; apply (win_range_same d); [reflexivity | unfold run_effect; cbn [d_slots]; apply write_length | exact HWt] ]).
   rewrite !Nat.add_0_r. reflexivity.
 Qed.
 
@@ -104,15 +107,17 @@ Qed.
 Lemma clone_loop_mirror_out m o oo n N1 N2 d :
   let len := length (d_slots d) in
   o < len -> n <= len -> oo + n <= length (d_out d) ->
+  (let '(h, t) := chunk len o n in win_range d o h /\ win_range d 0 t) ->
   for_n n 0 (clone_body E m (mkSl (RBufV len) o N1) (mkSl RDst oo N2)) d =
   Some (tt, let '(h, t) := chunk len o n in xrun_effect E 0 (oo + h) t (xrun_effect E o oo h d)).
 Proof.
-  intros len Ho Hn Hs. pose proof (chunk_cases len o n Ho Hn) as Hc. destruct (chunk len o n) as [h t].
+  intros len Ho Hn Hs HW. pose proof (chunk_cases len o n Ho Hn) as Hc. destruct (chunk len o n) as [h t].
+  destruct HW as [HWh HWt].
   destruct Hc as (Hsum & Hoh & Hto & Hhead & Htail).
   rewrite <- Hsum. rewrite for_n_split. unfold dbind at 1.
   rewrite (for_n_ext_range h 0 _ (clone_body E m (mkSl RBuf o N1) (mkSl RDst oo N2))).
   2:{ intros j' d' Hj. unfold clone_body, sl_at. cbn [s_reg s_off]. rewrite mirror_head by (try apply Hhead; lia). reflexivity. }
-  rewrite clone_loop_buf_out by (fold len; lia). rewrite !Nat.add_0_r.
+  rewrite clone_loop_buf_out by (first [fold len; lia | rewrite Nat.add_0_r; exact HWh]). rewrite !Nat.add_0_r.
   fold (xrun_effect E o oo h d). cbn [Nat.add].
   rewrite for_n_shift.
   rewrite (for_n_ext_range t 0 _ (clone_body E m (mkSl RBuf 0 N1) (mkSl RDst (oo + h) N2))).
@@ -120,7 +125,8 @@ Proof.
       destruct (Htail i ltac:(lia)) as (T1 & T2 & T3).
       replace (o + (h + i)) with (o + h + i) by lia. rewrite mirror_tail by lia. rewrite T3.
       replace (oo + (h + i)) with (oo + h + i) by lia. reflexivity. }
-  rewrite clone_loop_buf_out by (unfold xrun_effect; cbn [d_slots d_out]; rewrite ?write_length; fold len; lia).
+  rewrite clone_loop_buf_out by (first [ unfold xrun_effect; cbn [d_slots d_out]; rewrite ?write_length; fold len; lia
+                                       | cbn [Nat.add]; apply (win_range_same d); [reflexivity | reflexivity | exact HWt] ]).
   rewrite !Nat.add_0_r. reflexivity.
 Qed.
 End Mirror.
@@ -170,12 +176,14 @@ End ChunkV.
 Definition store_spec_v (E : denv) (m : smode) (f : sl -> sl -> DM unit) : Prop :=
   forall o so c d, let len := length (d_slots d) in
     o < len -> c <= len -> so + c <= length (dn_src E) ->
+    (let '(h, t) := chunk len o c in win_range d o h /\ win_range d 0 t) ->
     f (mkSl (RBufV len) o c) (mkSl RSrc so c) d =
     Some (tt, let '(h, t) := chunk len o c in run_effect E m 0 (so + h) t (run_effect E m o so h d)).
 
 Definition extract_spec_v (E : denv) (f : sl -> sl -> DM unit) : Prop :=
   forall o oo c d, let len := length (d_slots d) in
     o < len -> c <= len -> oo + c <= length (d_out d) ->
+    (let '(h, t) := chunk len o c in win_range d o h /\ win_range d 0 t) ->
     f (mkSl (RBufV len) o c) (mkSl RDst oo c) d =
     Some (tt, let '(h, t) := chunk len o c in xrun_effect E 0 (oo + h) t (xrun_effect E o oo h d)).
 
@@ -185,7 +193,7 @@ Variable E : denv.
 Lemma spec_copy_v m (f : sl -> sl -> DM unit) : dn_owned E = false ->
   (forall a b d, f a b d = (v <~ copy_from_slice_unchecked E b a ;; dret tt) d) -> store_spec_v E m f.
 Proof.
-  intros Hpl Hf o so c d len H1 H2 H3. rewrite Hf. rewrite pass_on_unit. unfold copy_from_slice_unchecked. cbn [s_len].
+  intros Hpl Hf o so c d len H1 H2 H3 HW. rewrite Hf. rewrite pass_on_unit. unfold copy_from_slice_unchecked. cbn [s_len].
   rewrite Nat.leb_refl.
   change (fun j : nat => v <~ rd E (sl_at (mkSl RSrc so c) j);; st (sl_at (mkSl (RBufV len) o c) j) v) with (copy_body E (mkSl RSrc so c) (mkSl (RBufV len) o c)).
   rewrite (copy_loop_is_clone_loop E m) by exact Hpl. apply clone_loop_src_mirror; assumption.
@@ -194,7 +202,7 @@ Qed.
 Lemma spec_clone_v (f : sl -> sl -> DM unit) :
   (forall a b d, f a b d = (v <~ clone_from_slice E a b ;; dret tt) d) -> store_spec_v E SAssign f.
 Proof.
-  intros Hf o so c d len H1 H2 H3. rewrite Hf. rewrite pass_on_unit. unfold clone_from_slice. cbn [s_len].
+  intros Hf o so c d len H1 H2 H3 HW. rewrite Hf. rewrite pass_on_unit. unfold clone_from_slice. cbn [s_len].
   rewrite Nat.eqb_refl.
   change (fun j : nat => v <~ rd E (sl_at (mkSl RSrc so c) j);; c0 <~ clone_ E v;; assign E (sl_at (mkSl (RBufV len) o c) j) c0)
     with (clone_body E SAssign (mkSl RSrc so c) (mkSl (RBufV len) o c)).
@@ -256,7 +264,7 @@ Proof.
   2:{ unfold Seq.ret in G0. destruct G0 as (Ag & Ho & Hr). destruct r0 as [a|]; [contradiction|].
       rewrite (agrees_is_view _ _ _ _ Ag Ho). unfold dbind, dret.
       eexists _, _. split; [reflexivity|]. unfold Seq.ret. split; [|split]; [constructor; cbn; auto | reflexivity | exact I]. }
-  specialize (Hn eq_refl).
+  specialize (Hn eq_refl). pose proof (check_grants _ _ _ _ Ck) as Hg.
   unfold Seq.rd in *. destruct (chunk (mlen s1) (ix (it_of P s1)) n) as [h t] eqn:Ch. unfold Seq.ret in G0.
   destruct G0 as (Ag & Ho & Hr). destruct r0 as [a|]; [|contradiction].
   destruct Hr as (Ha & _ & Hil & _). subst a.
@@ -275,7 +283,12 @@ Proof.
   unfold view, dbind, dret.
   assert (Hl1 : length (slots s1) = mlen s) by (rewrite A; exact Hlen).
   pose proof (Hf (ix (it_of P s1)) 0 n (mkD (local_of P s1) (slots s1) [] [] (nid s1) out)) as Hf1. cbn [d_slots dn_src denv_of] in Hf1.
-  cbv zeta in Hf1. rewrite Hl1 in Hf1. rewrite Hf1 by lia. clear Hf1.
+  cbv zeta in Hf1. rewrite Hl1 in Hf1. rewrite Hf1 by (first [ lia
+                            | rewrite Ch; destruct Hwf1 as [W1 _ _ _ _]; unfold chunk in Ch;
+                              destruct (mlen s <=? ix (it_of P s1) + n) eqn:Hwrap; inversion Ch; subst h t;
+                              [apply Nat.leb_le in Hwrap | apply Nat.leb_gt in Hwrap];
+                              unfold it_of in *; cbn [tget] in *;
+                              (split; [apply win_head; unfold it_of in *; cbn [tget] in *; lia | first [apply win_tail; unfold it_of in *; cbn [tget d_slots] in *; lia | intros i0 Hi0; lia]]) ]). clear Hf1.
   rewrite Ch. cbv iota beta. cbn [Nat.add].
   unfold run_effect. cbn [d_l d_slots d_pubs d_evs d_nid d_out dn_src dn_E denv_of]. rewrite ?A, ?Nd.
   rewrite (lift_advance P n s s1) by (first [exact Hwf1 | lia | symmetry; exact He]).
@@ -336,18 +349,16 @@ Ltac via_generic_v m cl :=
   end.
 
 Ltac body_tac_v :=
-  intros x y d; unfold check_zeroed, write_, assign, store_mode, st, emit, clone_, dbind, dret, is_buf, set_slots_d, rd;
+  let Hx := fresh "Hx" in let Hy := fresh "Hy" in let Hw := fresh "Hw" in let Z := fresh "Z" in
+  intros x y d; unfold check_zeroed, write_, assign, store_mode, st, emit, clone_, dbind, dret, is_buf, set_slots_d, rd, in_window;
   cbn [d_l d_slots d_pubs d_evs d_nid d_out dn_src dn_owned denv_of];
-  destruct (x <? length (d_slots d)) eqn:?; destruct (y <? length vs) eqn:?; try reflexivity;
-  cbn [d_l d_slots d_pubs d_evs d_nid d_out];
-  repeat match goal with |- context[if ?a <? ?b then _ else _] => match goal with H : (a <? b) = _ |- _ => rewrite H end end;
-  cbn [d_l d_slots d_pubs d_evs d_nid d_out];
-  try reflexivity;
-  destruct (isz (nth x (d_slots d) 0%N)) eqn:Z; cbn [negb d_l d_slots d_pubs d_evs d_nid d_out];
-  repeat match goal with |- context[if ?a <? ?b then _ else _] => match goal with H : (a <? b) = _ |- _ => rewrite H end end;
-  cbn [d_l d_slots d_pubs d_evs d_nid d_out]; unfold store_ev; rewrite ?Z;
-  repeat (progress (repeat match goal with |- context[if ?a <? ?b then _ else _] => match goal with H : (a <? b) = _ |- _ => rewrite H end end;
-                    cbn [d_l d_slots d_pubs d_evs d_nid d_out]));
+  destruct (x <? length (d_slots d)) eqn:Hx; destruct (y <? length vs) eqn:Hy;
+  match goal with |- context[?c <? l_cached (d_l d)] => destruct (c <? l_cached (d_l d)) eqn:Hw end;
+  cbn [andb d_l d_slots d_pubs d_evs d_nid d_out]; try reflexivity;
+  repeat (progress (rewrite ?upd_length, ?Hx, ?Hy, ?Hw; cbn [andb d_l d_slots d_pubs d_evs d_nid d_out])); try reflexivity;
+  destruct (isz (nth x (d_slots d) 0%N)) eqn:Z; cbn [negb andb d_l d_slots d_pubs d_evs d_nid d_out];
+  unfold store_ev; rewrite ?Z;
+  repeat (progress (rewrite ?upd_length, ?Hx, ?Hy, ?Hw, ?Z; cbn [negb andb d_l d_slots d_pubs d_evs d_nid d_out]));
   try reflexivity.
 
 Theorem tie_push_slice_v : owned s = false ->
@@ -404,7 +415,7 @@ Proof.
   2:{ unfold Seq.ret in G0. destruct G0 as (Ag & Ho & Hr). destruct r0 as [a|]; [contradiction|].
       rewrite (agrees_is_view _ _ _ _ Ag Ho). unfold dbind, dret.
       eexists _, _. split; [reflexivity|]. unfold Seq.ret. split; [constructor; cbn; auto | reflexivity]. }
-  specialize (Hn eq_refl).
+  specialize (Hn eq_refl). pose proof (check_grants _ _ _ _ Ck) as Hg.
   unfold Seq.rd in *. destruct (chunk (mlen s1) (ix (it_of C s1)) n) as [h t] eqn:Ch. unfold Seq.ret in G0.
   destruct G0 as (Ag & Ho & Hr). destruct r0 as [a|]; [|contradiction].
   destruct Hr as (Ha & _ & Hil & _). subst a. rewrite B in Ch.
@@ -430,7 +441,12 @@ Proof.
   unfold view, dbind, dret.
   assert (Hls1 : length (slots s1) = mlen s) by (rewrite A; exact Hlen).
   pose proof (Hf (ix (it_of C s1)) 0 n (mkD (local_of C s1) (slots s1) [] [] (nid s1) out)) as Hf1. cbn [d_slots d_out] in Hf1.
-  cbv zeta in Hf1. rewrite Hls1 in Hf1. rewrite Hf1 by lia. clear Hf1.
+  cbv zeta in Hf1. rewrite Hls1 in Hf1. rewrite Hf1 by (first [ lia
+                            | rewrite Ch; destruct Hwf1 as [W1 _ _ _ _]; unfold chunk in Ch;
+                              destruct (mlen s <=? ix (it_of C s1) + n) eqn:Hwrap; inversion Ch; subst h t;
+                              [apply Nat.leb_le in Hwrap | apply Nat.leb_gt in Hwrap];
+                              unfold it_of in *; cbn [tget] in *;
+                              (split; [apply win_head; unfold it_of in *; cbn [tget] in *; lia | first [apply win_tail; unfold it_of in *; cbn [tget d_slots] in *; lia | intros i0 Hi0; lia]]) ]). clear Hf1.
   rewrite Ch. cbv iota beta. cbn [Nat.add].
   unfold xrun_effect. cbn [d_l d_slots d_pubs d_evs d_nid d_out dn_E denv_of]. rewrite ?A, ?Nd.
   rewrite (lift_advance C n s s1) by (first [exact Hwf1 | lia | symmetry; exact He]).
